@@ -590,3 +590,234 @@ func ruleResumeCursor(c *Ctx) {
 	}
 	_ = strings.Join
 }
+
+func init() {
+	register(&Rule{ID: "R9.emit-covers-state", Props: []string{"C09"}, Floor: 9,
+		Text: "the rewrite emits every component of the state it replaces, under exactly the guard that component has: in aofshrink, the option words appended to a command ('field' under !f.Value().IsZero() only, 'ex' under o.Expires() != 0 only, 'object'/'string' on the two edges of objIsSpatial(o.Geo()), 'setchan'/'sethook' on the two edges of hook.channel, 'meta' for every element of hook.Metas, 'ex' under !hook.expires.IsZero() only) carry no other condition, the object command reads ID, Fields, Expires and Geo of the object, and the hook command appends the hook's stored message arguments unconditionally",
+		Run:  ruleEmitCoversState})
+}
+
+func ruleEmitCoversState(c *Ctx) {
+	fn := c.Func("internal/server", "Server", "aofshrink")
+	if fn == nil {
+		c.und("anchors", 0, "aofshrink not found")
+		return
+	}
+	info := fn.Info()
+	// every append(values, "lit", ...) with its innermost enclosing literal and the facts dominating it inside that literal
+	type emit struct {
+		word  string
+		lit   *ast.FuncLit
+		facts []string
+		pos   token.Pos
+		call  *ast.CallExpr
+	}
+	var emits []emit
+	graphs := map[*ast.FuncLit]*FlowGraph{}
+	var lits []*ast.FuncLit
+	ast.Inspect(fn.Decl.Body, func(n ast.Node) bool {
+		if l, ok := n.(*ast.FuncLit); ok {
+			lits = append(lits, l)
+		}
+		return true
+	})
+	innermost := func(n ast.Node) *ast.FuncLit {
+		var best *ast.FuncLit
+		for _, l := range lits {
+			if l.Body.Pos() <= n.Pos() && n.End() <= l.Body.End() {
+				if best == nil || l.Body.Pos() >= best.Body.Pos() {
+					best = l
+				}
+			}
+		}
+		return best
+	}
+	ast.Inspect(fn.Decl.Body, func(n ast.Node) bool {
+		call, ok := n.(*ast.CallExpr)
+		if !ok || len(call.Args) < 2 {
+			return true
+		}
+		if id, ok := ast.Unparen(call.Fun).(*ast.Ident); !ok || id.Name != "append" {
+			return true
+		}
+		w, ok := constString(info, call.Args[1])
+		if !ok {
+			return true
+		}
+		if t, ok := info.TypeOf(call.Args[0]).Underlying().(*types.Slice); !ok || t.Elem().String() != "string" {
+			return true
+		}
+		l := innermost(call)
+		if l == nil {
+			return true
+		}
+		fg := graphs[l]
+		if fg == nil {
+			fg = newFlowGraph(info, l.Body)
+			graphs[l] = fg
+		}
+		loc := fg.LocOf(call)
+		var facts []string
+		if loc.Valid() {
+			for _, f := range fg.DominatingFacts(loc) {
+				s := exprStr(f.E)
+				if f.Tag != nil {
+					s = exprStr(f.Tag) + "==" + s
+				}
+				if f.Neg {
+					s = "!(" + s + ")"
+				}
+				facts = append(facts, s)
+			}
+		}
+		sort.Strings(facts)
+		emits = append(emits, emit{w, l, facts, call.Pos(), call})
+		return true
+	})
+	// expected guards: the first parameter of the object callback is o, of the field callback f; hooks use `hook`
+	type want struct {
+		word   string
+		hook   bool
+		guards func(facts []string) (ok bool, why string)
+	}
+	only := func(allowed ...string) func([]string) (bool, string) {
+		return func(facts []string) (bool, string) {
+			need := map[string]bool{}
+			for _, a := range allowed {
+				need[a] = false
+			}
+			for _, f := range facts {
+				if _, ok := need[f]; ok {
+					need[f] = true
+					continue
+				}
+				// the batch-limit test of the object callback is not a filter on the object
+				if strings.HasPrefix(f, "!(count == ") {
+					continue
+				}
+				// existence of the thing being emitted (the hook was deleted meanwhile) is not a filter on its state
+				if strings.HasSuffix(f, " == nil)") && strings.HasPrefix(f, "!(") || strings.HasSuffix(f, " != nil") {
+					continue
+				}
+				return false, "extra condition " + f
+			}
+			for a, seen := range need {
+				if !seen {
+					return false, "missing condition " + a
+				}
+			}
+			return true, ""
+		}
+	}
+	isHookLit := func(l *ast.FuncLit) bool {
+		hit := false
+		ast.Inspect(l.Body, func(n ast.Node) bool {
+			if se, ok := n.(*ast.SelectorExpr); ok && se.Sel.Name == "Metas" {
+				hit = true
+			}
+			return true
+		})
+		return hit
+	}
+	wants := []want{
+		{"set", false, only()},
+		{"field", false, only("!(f.Value().IsZero())")},
+		{"ex", false, only("o.Expires() != 0")},
+		{"object", false, only("objIsSpatial(o.Geo())")},
+		{"string", false, only("!(objIsSpatial(o.Geo()))")},
+		{"setchan", true, only("hook.channel")},
+		{"sethook", true, only("!(hook.channel)")},
+		{"meta", true, only()},
+		{"ex", true, only("!(hook.expires.IsZero())")},
+	}
+	for _, w := range wants {
+		key := "object/" + w.word
+		if w.hook {
+			key = "hook/" + w.word
+		}
+		var found *emit
+		for i := range emits {
+			if emits[i].word == w.word && isHookLit(emits[i].lit) == w.hook {
+				found = &emits[i]
+			}
+		}
+		if found == nil {
+			c.bad(key, fn.Decl.Pos(), "the rewrite never emits %q for %s: that part of the state is lost by AOFSHRINK", w.word, map[bool]string{true: "hooks/channels", false: "objects"}[w.hook])
+			continue
+		}
+		if ok, why := w.guards(found.facts); ok {
+			c.ok(key, found.pos, true, "%q is emitted under exactly %v", w.word, found.facts)
+		} else {
+			c.bad(key, found.pos, "%q is emitted under %v (%s): some objects or hooks lose this part of their state in the rewritten log, or get one they did not have", w.word, found.facts, why)
+		}
+	}
+	// accessors read by the object command; 'meta' inside a range over hook.Metas; message arguments appended
+	var objLit *ast.FuncLit
+	for _, e := range emits {
+		if e.word == "set" && !isHookLit(e.lit) {
+			objLit = e.lit
+		}
+	}
+	if objLit != nil {
+		have := map[string]bool{}
+		ast.Inspect(objLit.Body, func(n ast.Node) bool {
+			if call, ok := n.(*ast.CallExpr); ok {
+				if f := callee(info, call); f != nil && isMethod(f, modPath+"/internal/object", "Object", f.Name()) {
+					have[f.Name()] = true
+				}
+			}
+			return true
+		})
+		var missing []string
+		for _, m := range []string{"ID", "Fields", "Expires", "Geo"} {
+			if !have[m] {
+				missing = append(missing, m)
+			}
+		}
+		c.check(len(missing) == 0, "object/reads-all-components", objLit.Pos(), "the object command reads ID, Fields, Expires and Geo", fmt.Sprintf("the object command does not read %v of the object", missing))
+	} else {
+		c.und("object/reads-all-components", fn.Decl.Pos(), "object emission closure not found")
+	}
+	metaInRange, argsAppended := false, false
+	for _, e := range emits {
+		if e.word == "meta" {
+			for p := c.Parent(e.call); p != nil && p != ast.Node(e.lit); p = c.Parent(p) {
+				if rs, ok := p.(*ast.RangeStmt); ok {
+					if se, ok := ast.Unparen(rs.X).(*ast.SelectorExpr); ok && se.Sel.Name == "Metas" {
+						metaInRange = true
+					}
+				}
+			}
+		}
+	}
+	ast.Inspect(fn.Decl.Body, func(n ast.Node) bool {
+		call, ok := n.(*ast.CallExpr)
+		if !ok || !call.Ellipsis.IsValid() || len(call.Args) != 2 {
+			return true
+		}
+		if id, ok := ast.Unparen(call.Fun).(*ast.Ident); !ok || id.Name != "append" {
+			return true
+		}
+		if se, ok := ast.Unparen(call.Args[1]).(*ast.SelectorExpr); ok && se.Sel.Name == "Args" {
+			l := innermost(call)
+			if l != nil && isHookLit(l) {
+				fg := graphs[l]
+				if fg == nil {
+					fg = newFlowGraph(info, l.Body)
+				}
+				extra := false
+				for _, f := range fg.DominatingFacts(fg.LocOf(call)) {
+					if s := exprStr(f.E); !(f.Neg && s == "hook == nil") {
+						extra = true
+					}
+				}
+				if !extra {
+					argsAppended = true
+				}
+			}
+		}
+		return true
+	})
+	c.check(metaInRange, "hook/meta-for-every-element", fn.Decl.Pos(), "'meta' is emitted inside a range over hook.Metas", "'meta' is not emitted for every element of hook.Metas")
+	c.check(argsAppended, "hook/message-args", fn.Decl.Pos(), "the hook's stored message arguments are appended unconditionally", "the hook's message arguments (the fence definition) are not appended unconditionally to the rewritten SETHOOK/SETCHAN")
+}
